@@ -65,7 +65,8 @@ type SeriesJ struct {
 }
 
 // DataJ is one sample set. Flush: 0 = everything stays in the memtable, 1 = forced flush after the write,
-// 2 = the first half (by time) is written and flushed, the second half stays in the memtable.
+// 2 = the first half (by time) is written and flushed, the second half stays in the memtable, 3 = the second half is
+// flushed as well (two files).
 type DataJ struct {
 	Base   int64     `json:"base_ms"`
 	Series []SeriesJ `json:"series"`
